@@ -5,7 +5,7 @@
 
 package parser
 
-//@ props C01 C10 C08 C17 C07 C09 C03 C04
+//@ props C01 C10 C08 C17 C07 C09 C03 C04 C15
 
 //@ wf elems
 //@ default opaque
@@ -142,9 +142,17 @@ package parser
 //@   ensures[C04] marks-the-current-column: len(l.aliases) == 0 ==> l.pos.line == l.line && l.pos.col == l.col + off
 //@   ensures[C04] alias-text-has-no-position: len(l.aliases) != 0 ==> l.pos == old(l.pos)
 //@   preserves[C04] F.parser.lexer.line F.parser.lexer.col F.parser.lexer.word F.parser.lexer.aliases
+// An escaped character inside double quotes (or a here-document body) comes
+// after the text collected before it, as a backslash quotation of exactly
+// that character; any other character keeps its backslash as ordinary text.
+//@ func (*lexer).esc
+//@   ensures[C15] pending-text-comes-first: (r == '"' || r == '$' || r == '\\' || r == '`') && old(l.b) != "" ==> len(l.word) == old(len(l.word)) + 2 && l.word[old(len(l.word))] is *ast.Lit && l.word[len(l.word)-1] is *ast.Quote && l.b == ""
+//@   ensures[C15] escaped-character-is-a-backslash-quotation: (r == '"' || r == '$' || r == '\\' || r == '`') ==> len(l.word) >= 1 && l.word[len(l.word)-1] is *ast.Quote && l.word[len(l.word)-1].(*ast.Quote).Tok == "\\" && len(l.word[len(l.word)-1].(*ast.Quote).Value) == 1 && l.word[len(l.word)-1].(*ast.Quote).Value[0] is *ast.Lit
+//@   ensures[C15] nothing-pending-only-the-quotation: (r == '"' || r == '$' || r == '\\' || r == '`') && old(l.b) == "" ==> len(l.word) == old(len(l.word)) + 1
+//@   ensures[C15] other-characters-keep-their-backslash: !(r == '"' || r == '$' || r == '\\' || r == '`' || r == '\n') ==> l.word == old(l.word) && len(l.b) >= old(len(l.b)) + 2 && l.b[old(len(l.b))] == '\\'
 //@ func (*lexer).lit
-//@   ensures[C04] literal-carries-the-marked-position: old(l.b) != "" ==> len(l.word) == old(len(l.word)) + 1 && l.word[len(l.word)-1] is *ast.Lit && l.word[len(l.word)-1].(*ast.Lit).ValuePos == old(l.pos) && l.word[len(l.word)-1].(*ast.Lit).Value == old(l.b) && l.b == ""
-//@   ensures[C04] nothing-pending-nothing-added: old(l.b) == "" ==> l.word == old(l.word)
+//@   ensures[C04 C15] literal-carries-the-marked-position: old(l.b) != "" ==> len(l.word) == old(len(l.word)) + 1 && l.word[len(l.word)-1] is *ast.Lit && l.word[len(l.word)-1].(*ast.Lit).ValuePos == old(l.pos) && l.word[len(l.word)-1].(*ast.Lit).Value == old(l.b) && l.b == ""
+//@   ensures[C04 C15] nothing-pending-nothing-added: old(l.b) == "" ==> l.word == old(l.word)
 //@   ensures len(l.word) >= old(len(l.word))
 
 // ---- here-document hand-off counter (C01, C08) ----
